@@ -73,3 +73,23 @@ def fits_bytes(n, w, signed=False):
     if signed:
         return -(256 ** w) // 2 <= n < (256 ** w) // 2 if w > 0 else n == 0
     return 0 <= n < 256 ** w
+
+
+def aes_enc(key, iv, data):
+    from Crypto.Cipher import AES
+    return AES.new(key, AES.MODE_CBC, iv=iv).encrypt(data)
+
+
+def aes_dec(key, iv, data):
+    from Crypto.Cipher import AES
+    return AES.new(key, AES.MODE_CBC, iv=iv).decrypt(data)
+
+
+def hmac_sha256(key, msg):
+    import hmac
+    return hmac.new(key, msg, "sha256").digest()
+
+
+def sha256(data):
+    import hashlib
+    return hashlib.sha256(data).digest()
